@@ -89,7 +89,7 @@ package cors
 //@   requires !icfg.allowAnyMethod && len(icfg.allowedMethods.elems) == 0 && SetInv(icfg.allowedMethods)
 //@   assigns icfg.allowAnyMethod
 //@   assigns icfg.allowedMethods
-//@   assigns heap("E!Str")
+//@   ensures unchanged_below("E!Str")
 //@   ensures C04.methods: result == nil ==> (forall j :: 0 <= j && j < len(names) ==> OkMethod(old(names[j])))
 //@   ensures C05.methods_accept: (forall j :: 0 <= j && j < len(names) ==> OkMethod(old(names[j]))) ==> result == nil
 //@   ensures C15.any_method_is_membership: result == nil ==> (icfg.allowAnyMethod == (exists j :: 0 <= j && j < len(names) && old(names[j]) == "*"))
@@ -104,6 +104,7 @@ package cors
 //@   loop 0 invariant SetInv(allowedMethods) && (arr(allowedMethods.elems) == 0 || isfresh(arr(allowedMethods.elems)))
 //@   loop 0 invariant forall j :: 0 <= j && j < len(names) ==> names[j] === old(names[j])
 //@   loop 0 invariant icfg.allowedMethods === old(icfg.allowedMethods)
+//@   loop 0 invariant unchanged_below("E!Str")
 //@   loop 0 decreases len(names) - rangeindex
 
 //@ func internalConfig.validateRequestHeaders
@@ -116,7 +117,7 @@ package cors
 //@   assigns icfg.allowAuthorization
 //@   assigns icfg.allowedReqHdrs
 //@   assigns icfg.acah
-//@   assigns heap("E!Str")
+//@   ensures unchanged_below("E!Str")
 //@   ensures C04.request_headers: result == nil ==> (forall j :: 0 <= j && j < len(names) ==> OkReqHdr(old(names[j])))
 //@   ensures C05.request_headers_accept: (forall j :: 0 <= j && j < len(names) ==> OkReqHdr(old(names[j]))) ==> result == nil
 //@   ensures C15.asterisk_is_membership: result == nil ==> (icfg.asteriskReqHdrs == (exists j :: 0 <= j && j < len(names) && old(names[j]) == "*"))
@@ -134,6 +135,7 @@ package cors
 //@   loop 0 invariant SetInv(allowedHeaders) && (arr(allowedHeaders.elems) == 0 || isfresh(arr(allowedHeaders.elems)))
 //@   loop 0 invariant forall j :: 0 <= j && j < len(names) ==> names[j] === old(names[j])
 //@   loop 0 invariant icfg.allowedReqHdrs === old(icfg.allowedReqHdrs) && icfg.acah === old(icfg.acah) && icfg.credentialed == old(icfg.credentialed)
+//@   loop 0 invariant unchanged_below("E!Str")
 //@   loop 0 decreases len(names) - rangeindex
 
 //@ func internalConfig.validateResponseHeaders
@@ -142,7 +144,7 @@ package cors
 //@   uses mem_empty
 //@   requires icfg != nil && icfg > 0
 //@   assigns icfg.aceh
-//@   assigns heap("E!Str")
+//@   ensures unchanged_below("E!Str")
 //@   ensures C04.response_headers: result == nil ==> (forall j :: 0 <= j && j < len(names) ==> OkResHdr(old(names[j]), icfg.credentialed))
 //@   ensures C05.response_headers_accept: (forall j :: 0 <= j && j < len(names) ==> OkResHdr(old(names[j]), icfg.credentialed)) ==> result == nil
 //@   ensures C15.expose_all_is_membership: result == nil && (exists j :: 0 <= j && j < len(names) && old(names[j]) == "*") ==> icfg.aceh == "*"
@@ -155,6 +157,7 @@ package cors
 //@   loop 0 invariant SetInv(exposedHeaders) && (arr(exposedHeaders.elems) == 0 || isfresh(arr(exposedHeaders.elems)))
 //@   loop 0 invariant forall j :: 0 <= j && j < len(names) ==> names[j] === old(names[j])
 //@   loop 0 invariant icfg.aceh === old(icfg.aceh) && icfg.credentialed == old(icfg.credentialed)
+//@   loop 0 invariant unchanged_below("E!Str")
 //@   loop 0 decreases len(names) - rangeindex
 
 //@ func internalConfig.validateOrigins
@@ -188,10 +191,19 @@ package cors
 
 //@ func newInternalConfig
 //@   props C04 C05 C06 C08 C09 C15 C17
-//@   trusted TEMPORARY until L6 (validators) is under contract
+//@   frozen E! F!util_Set
 //@   ensures cfg == nil ==> result0 == nil && result1 == nil
 //@   ensures result1 != nil ==> result0 == nil
-//@   ensures cfg != nil && result1 == nil ==> result0 != nil && result0 > brk()
+//@   ensures cfg != nil && result1 == nil ==> result0 != nil && isfresh(result0)
+//@   ensures C04.status: cfg != nil && result1 == nil ==> (cfg.ExtraConfig.PreflightSuccessStatus == 0 || (200 <= cfg.ExtraConfig.PreflightSuccessStatus && cfg.ExtraConfig.PreflightSuccessStatus <= 299)) && !(cfg.ExtraConfig.PrivateNetworkAccess && cfg.ExtraConfig.PrivateNetworkAccessInNoCORSModeOnly) && (-1 <= cfg.MaxAgeInSeconds && cfg.MaxAgeInSeconds <= 86400)
+//@   ensures C04.origins: cfg != nil && result1 == nil ==> len(cfg.Origins) > 0 && old(forall j :: 0 <= j && j < len(cfg.Origins) ==> OkOriginCfg(cfg, cfg.Origins[j]))
+//@   ensures C04.methods: cfg != nil && result1 == nil ==> old(forall j :: 0 <= j && j < len(cfg.Methods) ==> OkMethod(cfg.Methods[j]))
+//@   ensures C04.request_headers: cfg != nil && result1 == nil ==> old(forall j :: 0 <= j && j < len(cfg.RequestHeaders) ==> OkReqHdr(cfg.RequestHeaders[j]))
+//@   ensures C04.response_headers: cfg != nil && result1 == nil ==> old(forall j :: 0 <= j && j < len(cfg.ResponseHeaders) ==> OkResHdr(cfg.ResponseHeaders[j], cfg.Credentialed))
+//@   ensures C05.every_permitted_config: cfg != nil && old(ConfigOK(cfg)) ==> result1 == nil
+//@   ensures C04.icfg_invariant: cfg != nil && result1 == nil ==> ICfgInv(result0)
+//@   ensures C15.switches_copied: cfg != nil && result1 == nil ==> result0.credentialed == cfg.Credentialed && result0.privateNetworkAccess == cfg.ExtraConfig.PrivateNetworkAccess && result0.privateNetworkAccessNoCors == cfg.ExtraConfig.PrivateNetworkAccessInNoCORSModeOnly && result0.insecureOrigins == cfg.ExtraConfig.DangerouslyTolerateInsecureOrigins && result0.subsOfPublicSuffixes == cfg.ExtraConfig.DangerouslyTolerateSubdomainsOfPublicSuffixes
+//@   ensures C15.lists_are_sets: cfg != nil && result1 == nil ==> (result0.allowAnyMethod == (exists j :: 0 <= j && j < len(cfg.Methods) && cfg.Methods[j] == "*")) && (result0.asteriskReqHdrs == (exists j :: 0 <= j && j < len(cfg.RequestHeaders) && cfg.RequestHeaders[j] == "*")) && (result0.allowAuthorization == (exists j :: 0 <= j && j < len(cfg.RequestHeaders) && cfg.RequestHeaders[j] != "*" && headers.IsValid(cfg.RequestHeaders[j]) && util.ByteLowercase(cfg.RequestHeaders[j]) == "authorization")) && ((result0.tree.root.schemes == nil && result0.tree.root.children == nil) == (exists j :: 0 <= j && j < len(cfg.Origins) && cfg.Origins[j] == "*"))
 
 //@ func NewMiddleware
 //@   props C04 C06 C09 C17
